@@ -106,7 +106,7 @@ def vectors(ctx, mod, text, extra, names, as_bytes=False, entry='compile'):
         flags = flags_of(combo + extra)
         try:
             if entry == 'compile':
-                m = mod.compile(enc(text), flags=flags)
+                m = mod.compile(enc(text) if isinstance(text, str) else type(text)(enc(t) for t in text), flags=flags)
                 vec[combo] = tuple(m.match(enc(n)) for n in names)
             elif entry == 'translate':
                 pos, neg = mod.translate(enc(text), flags=flags)
@@ -152,6 +152,24 @@ def check_pattern(ctx, toks, path_mode, extra, key, base_names, bytes_too=False)
                 bad(f'{entry} selects a different matching mode than the compiled matcher under the same flags', flags=list(combo),
                     name=names[i], compiled_got=vec[combo][i], other_got=v2[combo] if isinstance(v2[combo], str) else v2[combo][i])
                 return
+    # (0b) a list holding the pattern and its case twin accepts the union, under every case / platform mode (the de-duplication
+    #      of expanded patterns follows the mode that is in force)
+    twin = gen.ser(swap_lits(toks))
+    if twin != text and (len(text) + len(names)) % 2 == 0:
+        v_twin = vectors(ctx, mod, twin, extra, names)
+        for label, arg in (('list', [text, twin]), ('tuple, twin first', (twin, text, twin))):
+            v_list = vectors(ctx, mod, arg, extra, names)
+            ctx.count('case_twin_list_vectors')
+            for combo in COMBOS:
+                if isinstance(v_list[combo], str) or isinstance(v_twin[combo], str):
+                    continue
+                want = tuple(bool(a) or bool(b) for a, b in zip(vec[combo], v_twin[combo]))
+                got = tuple(bool(x) for x in v_list[combo])
+                if got != want:
+                    i = next(i for i, (a, b) in enumerate(zip(got, want)) if a != b)
+                    bad('a list of a pattern and its case twin does not accept the union of the two', flags=list(combo), form=label,
+                        twin=twin, name=names[i], got=got[i], expected=want[i])
+                    return
     # (1) CASE wins, FORCEWIN+FORCEUNIX cancel
     for combo in COMBOS:
         canon = list(combo)
